@@ -169,6 +169,51 @@ def _returns_shifted_constant(g):
     return found
 
 
+
+def _small_multiple_of_a_quotient(ft, f, op, cg):
+    """the operand is (x / d or x.div_ceil(d)) * k (+ k') with d the value of a function returning a shifted constant >= 512
+    (MpqHeader::sector_size) or a constant >= 512, and the constants multiplied in amount to <= 64: it is below 2^62 whatever x is"""
+    if ft.cfg is None:
+        ft.cfg = mirg.Cfg(f)
+        ft.du = mirg.DefUse(f)
+    l = op_local(op)
+    if l is None:
+        return True
+    anc, calls, _ints = ft.du.slice_back(l, depth=8, through_index=False)
+    anc = set(anc) | {l}
+    divided = False
+    for c in calls:
+        cn = ncallee(c) or ""
+        if cn.endswith("::div_ceil") and len(c.get("a", [])) == 2:
+            d = c["a"][1]
+            dl = op_local(d)
+            if (mirg.op_int(d) or 0) >= 512:
+                divided = True
+            elif dl is not None:
+                _a2, calls2, _i2 = ft.du.slice_back(dl, depth=6, through_index=False)
+                if any(_returns_shifted_constant(cg.fns.get(ncallee(c2) or "") or cg.fns.get(mirg.callee(c2) or "")) for c2 in calls2):
+                    divided = True
+    prod = 1
+    for a in anc:
+        for _b, k_, p_ in ft.du.defs.get(a, []):
+            if k_ != "assign" or p_[2][0] != "bin":
+                continue
+            opn = p_[2][1]
+            if opn in ("Div",):
+                d = p_[2][3]
+                if (mirg.op_int(d) or 0) >= 512:
+                    divided = True
+            if opn in ("Mul", "MulWithOverflow", "MulUnchecked"):
+                ks = [mirg.op_int(o_) for o_ in (p_[2][2], p_[2][3])]
+                kc = next((k for k in ks if k is not None), None)
+                if kc is None:
+                    return False
+                prod *= max(kc, 1)
+            if opn in ("Shl", "ShlUnchecked"):
+                return False
+    return divided and prod <= 64
+
+
 def _nonzero_evidence(ft, f, op, bb, world=None, cg=None, depth=0):
     """why an input-derived operand cannot be 0 at block bb: a dominating branch establishes >= 1, or its derivation passes through
     max(.., k>=1) / clamp / NonZero / `| odd constant` / `+ positive constant`"""
@@ -458,6 +503,9 @@ def run(ctx):
                                 # both operands fill the width: a bound on one of them leaves the other free to overflow the sum / product
                                 if all(ft.sanitised(o, bb, strict=True) for o in t["ops"]):
                                     ctx.ok(R_narrow, {"fn": path, "op": opk, "line": t["ln"], "sanitised": True})
+                                elif opk == "Add" and ob == 64 and all(_small_multiple_of_a_quotient(ft, f, o, cg) for o in t["ops"]):
+                                    # both operands are (a quotient by the sector size) x (a small constant): at most 2^55 x 64 each
+                                    ctx.ok(R_narrow, {"fn": path, "op": opk, "line": t["ln"], "bounded": "each operand is a quotient by the sector size times a constant <= 64"})
                                 else:
                                     ctx.bad(R_narrow, "C2|%s|%s|%s" % (path, opk, "+".join(w.split("→")[0] for w in whys2)), "%s:%d" % (f.file, t["ln"]),
                                             "%s of two input fields (%s) carried out in %s, the width they were read at, with no bound on either" % (opk, ", ".join(w.split("→")[0] for w in whys2), tn),
